@@ -14,7 +14,7 @@ META = {
              'is a boundary value of its domain or belongs to a rejection class'),
     'required_obs': {'quick': ['code-' + c for c in CODES] + ['uvari-width-1', 'uvari-width-2', 'uvari-width-4',
                                'rejected-out-of-range', 'rejected-non-ascii', 'rejected-too-long', 'cache-collision-pair',
-                               'e2e-contract-evals', 'obname-copy>0', 'obname-origin-2byte', 'obname-after-identity-change']},
+                               'e2e-contract-evals', 'obname-copy>0', 'obname-origin-2byte', 'obname-after-identity-change', 'dtime-utc-year-differs']},
     'exhaustive_windows': {'quick': ['UVARI: every value 0..20000 and 2^30-3..2^30+3', 'USHORT/SSHORT: whole domain +-2',
                                      'IDENT lengths 0..260', 'STATUS -2..3'],
                            'thorough': ['UVARI: every value 0..70000', 'UNORM/SNORM whole domain +-2', 'IDENT/ASCII lengths 0..300']},
@@ -179,9 +179,20 @@ def run_case(case):
             us = r.choice([0, 1, 499, 500, 501, 999, 1000, 1499, 1500, 999499, 999500, 999999, r.randrange(10 ** 6)])
             tzm = r.choice([None, 0, 0, 60, -60, 330, -720, 840, r.randint(-14 * 60, 14 * 60)])
             try:
-                t = dt.datetime(y, r.randint(1, 12), r.randint(1, 28), r.randint(0, 23), r.randint(0, 59), r.randint(0, 59), us,
-                                tzinfo=None if tzm is None else dt.timezone(dt.timedelta(minutes=tzm)))
+                tz = None if tzm is None else dt.timezone(dt.timedelta(minutes=tzm))
+                if j % 3 == 0:
+                    # within hours of a year / month boundary, where the UTC date differs from the local one
+                    mo = r.choice([1, 1, r.randint(1, 12)])
+                    t = dt.datetime(min(y + (mo == 1 and r.random() < 0.5), 2156), mo, 1, 0, 0, 0, 0, tzinfo=tz) + dt.timedelta(
+                        seconds=r.choice([-1, 0, 1, r.randint(-15 * 3600, 15 * 3600)]), microseconds=us)
+                    sigs.add('DTIME:near-boundary:' + ('aware' if tz else 'naive'))
+                else:
+                    t = dt.datetime(y, r.randint(1, 12), r.randint(1, 28), r.randint(0, 23), r.randint(0, 59), r.randint(0, 59), us,
+                                    tzinfo=tz)
                 u = t.astimezone(dt.timezone.utc)
+                if u.year != t.year:
+                    sigs.add('DTIME:utc-year-differs')
+                    bump('dtime-utc-year-differs')
             except (OverflowError, ValueError):
                 continue
             got = real('DTIME', t)
